@@ -275,6 +275,10 @@ def r3_r4(prog, ev, rep):
         neg, pos = body.a[1], body.a[2]
         good_pos = pos == X
         good_neg = neg.k == "call" and len(neg.a) == 2 and neg.a[1] == X and is_invert(prog, ev, neg.a[0])
+        if not good_neg and neg.k == "call" and neg.a[0] == STATE + "bool" and len(neg.a) == 3 and neg.a[1].k == "un" and neg.a[1].a[0] == "Not":
+            # the inverting helper written out (or unfolded): bool(!truth(X), ..)
+            s_ = truth_of(ev, neg.a[1].a[1])
+            good_neg = s_ is not None and s_ == X
         rep.check(good_pos, "C05-R3", key + "/not=false", where, "X", "non-negated branch computes `%s` instead of X" % pos)
         rep.check(good_neg, "C05-R3", key + "/not=true", where, "bool(!truth(X))", "negated branch computes `%s` instead of !X" % neg)
 
@@ -595,7 +599,10 @@ def r8(prog, ev, rep):
                 if pushed[0].k != "try" and pushed[0].k == "adt" and pushed[0].a[1] == "Ok":
                     pushed = [pushed[0].a[2][0][1]]
         good = bool(pushed) and all(inner_ok(x) for x in pushed)
-        rep.check(good, "C05-R8", key + "/operands", where, inner_desc, "operands pushed are %s" % [str(x) for x in pushed])
+        if not good and pushed and all(x.k == "call" and x.a[0] in prog.bodies and x.a[0] not in (la, fa) for x in pushed):
+            rep.unrecognised("C05-R8", key + "/operands", where, "operands are built through `%s`, which the rule does not look into" % pushed[0].a[0])
+        else:
+            rep.check(good, "C05-R8", key + "/operands", where, inner_desc, "operands pushed are %s" % [str(x) for x in pushed])
         # the connective is built from exactly that operand list: nothing regroups, flattens, filters or reorders it on the way
         from vflib.terms import elements_of
         payload = cons[0].a[2][0][1]
